@@ -298,6 +298,12 @@ def check_c15(pid, tier, t0, replay_key):
         findings += f
         obl += o
         st.update(s2)
+    import e7
+    g1dom = e7.Analysis(P, e7.Domain(P, tables["e7_tables"]["parser"]))
+    f, o, s2 = e4.rule_x10(P, reach, tables, g1dom.relevant_or_closure)
+    findings += f
+    obl += o
+    st.update(s2)
     # a dropped error is also "a bogus font reported as built"
     f3, o3, s3, st3 = e3.run(P, tables)
     findings += f3
